@@ -1,5 +1,7 @@
 pub mod c10;
 pub mod c12;
+pub mod c13;
+pub mod c14;
 pub mod c15;
 pub mod screen_props;
 
@@ -23,6 +25,8 @@ pub fn run(id: &str, cfg: &RunCfg) -> Option<PropResult> {
         "C01" | "C02" | "C03" | "C04" | "C19" => Some(screen_props::run(id, cfg)),
         "C10" => Some(c10::run(cfg)),
         "C12" => Some(c12::run(cfg)),
+        "C13" => Some(c13::run(cfg)),
+        "C14" => Some(c14::run(cfg)),
         "C15" => Some(c15::run(cfg)),
         _ => None,
     }
